@@ -45,7 +45,7 @@ def unwindset(tb):
         "__CPROVER_file_local_assembler_c_assemble_imm.0": 9,
         "__CPROVER_file_local_assembler_c_assemble_mem_const.0": 5,
         "__CPROVER_file_local_assembler_c_assemble_instr.0": 17,
-        "nop_padding.0": 12,
+        "nop_padding.0": 13, "nop_padding.1": 4,
         "assemble_all.0": 6,
     }
 
